@@ -119,7 +119,7 @@ Importer::~Importer()
 std::vector<ImportSourcePtr>::const_iterator Importer::ImporterImpl::findImportSource(const ImportSourcePtr &importSource) const
 {
     return std::find_if(mImports.begin(), mImports.end(),
-                        [=](const ImportSourcePtr &importSrc) -> bool { return importSource->equals(importSrc); });
+                        [=](const ImportSourcePtr &importSrc) -> bool { return importSrc->equals(importSource); });
 }
 
 std::string Importer::ImporterImpl::modelUrl(const ModelPtr &model) const
